@@ -1,6 +1,7 @@
 package main
 
 import (
+	"context"
 	"encoding/hex"
 	"errors"
 	"fmt"
@@ -84,11 +85,14 @@ func (a argT) val() any {
 	panic("bad arg kind " + a.K)
 }
 
+// (fmtCase.Cancelled: the request context is already done when Stringf is called — a client that hung up, a deadline
+// that passed: the helper still writes what it documents; whether anybody reads it is not its business)
 type fmtCase struct {
-	Code   int
-	Format string // hex
-	Args   []argT
-	PreCT  string // Content-Type set before the call ("" = none)
+	Cancelled bool `json:",omitempty"`
+	Code      int
+	Format    string // hex
+	Args      []argT
+	PreCT     string // Content-Type set before the call ("" = none)
 }
 
 var fmtLits = []string{"", "a", "100", "hello ", " world", "é", "x=", "\n", "%%", "%%", "{}", "s", "%%s"}
@@ -227,6 +231,7 @@ func genFmt(r *hx.Rand) *fmtCase {
 		}
 	}
 	k.Format = hex.EncodeToString([]byte(b.String()))
+	k.Cancelled = r.Chance(1, 8)
 	if r.Chance(1, 10) {
 		k.PreCT = hx.Pick(r, []string{"text/html", "application/x-custom"})
 	}
@@ -261,6 +266,11 @@ func emitFmt(id string, k *fmtCase, st *hx.Stats) string {
 		}()
 		if k.PreCT != "" {
 			c.Response.Header().Set("Content-Type", k.PreCT)
+		}
+		if k.Cancelled {
+			ctx, cancel := context.WithCancel(c.Request.Context())
+			cancel()
+			c.Request = c.Request.WithContext(ctx)
 		}
 		perr = c.Stringf(k.Code, format, vals...)
 	})
